@@ -10,6 +10,9 @@ Sub-checks
              executed under two different global seeds: outputs identical, `random` / `numpy.random` states byte-identical
              before and after every call
   subprocess clause A across two fresh interpreters (few cases; slow)
+  subprocess_history  clause A between a fresh interpreter and one whose history ran the same deap-based optimiser class
+             (UnconstrainedSetGeneticAlgorithm) with another weight vector of the same length: process-global state left
+             behind by the first use of a component is invisible to any in-process comparison
 
 Argument forms: the four sampling utilities are called in every form their docstrings / signatures document (population as
 array of several dtypes or as Integral, size / axis as Integral, tuple or None, with and without probabilities, positional /
@@ -82,7 +85,10 @@ ASSUMPTIONS = [
     "'prior interpreter histories' are sampled: a prefix program plus direct draws from random / numpy.random",
     "components without an rng parameter (prng wrappers, spawn, apply_jitter, the EMBV factory) are only held to "
     "clause A (reproducible after prng.seed), not to clause B",
-    "optimiser sizes are capped (ngen <= 3, pop_size <= 8)",
+    "optimiser sizes are capped (ngen <= 3, pop_size <= 8; set-GA of subprocess_history: ngen <= 5, mu = lamb <= 10)",
+    "UnconstrainedSetGeneticAlgorithm.optimize with several objective weights raises IndexError in the unchanged library whenever "
+    "the flat argmax over its (mu x nobj) fitness table is >= mu; for calls with more than one weight that exception is an outcome "
+    "(must be identical in every execution), a run that returns is compared in full",
     "large inputs: the world stays 8 taxa x 10 markers; what grows is the size argument of each call (cross tables up to 129 parent "
     "slots in the quick tier and 256 in the thorough tier -- outcross_shuffle is cubic in the number of slots --, up to 400 crosses "
     "per mating call, up to 70001 sampled elements)",
@@ -359,6 +365,16 @@ def run_call(w, call):
             return _run_call(w, call)
         except Exception as e:                    # noqa: BLE001
             return {"raised": type(e).__name__}
+    if call[0] == "setga" and len(split_opts(call)[0][6]) >= 2:
+        # Several objectives: optimize() picks its best member with a flat argmax over the (mu x nobj) fitness table and
+        # indexes the population with it, which raises IndexError whenever that index is >= mu (unchanged library; what
+        # optimize() ought to return for several objectives is not this property's subject).  Input-side signature: more
+        # than one weight.  The crash happens after all the stochastic work, so it is an outcome like any other: it must be
+        # the same in every execution; a run that does return is compared in full.
+        try:
+            return _run_call(w, call)
+        except IndexError as e:
+            return {"raised": type(e).__name__}
     return _run_call(w, call)
 
 
@@ -500,6 +516,26 @@ def _run_call(w, call):
         algo = UnconstrainedSteepestAscentSetHillClimber(**kw)
         score, soln, misc = algo.optimize(objfn, 3, numpy.arange(NTAXA), 1.0)
         return {"score": canon(list(score)), "soln": canon(numpy.asarray(soln))}
+    if op == "setga":
+        # UnconstrainedSetGeneticAlgorithm.optimize (deap-based) with a generated problem: set size k out of a search space of
+        # nsp elements, nobj = len(wts) objectives, objective weights wts (sign = maximise / minimise)
+        c, o = split_opts(call)
+        _, spec, ngen, mu, kraw, nsp, wts, objseed = c
+        nsp = int(nsp)
+        k = 2 + int(kraw) % min(6, nsp - 2)
+        wts = [float(x) for x in wts]
+        vals = numpy.random.RandomState(int(objseed)).normal(size=(nsp, len(wts)))      # constants of the case, no global stream
+        if len(wts) == 1:
+            objfn = lambda x: float(vals[(numpy.asarray(x, dtype=int) - 1) // 2, 0].sum())      # search space = odd numbers
+        else:
+            objfn = lambda x: vals[(numpy.asarray(x, dtype=int) - 1) // 2].sum(0)
+        rng = make_rng(spec)
+        kw = {} if rng is None else {"rng": rng}
+        algo = UnconstrainedSetGeneticAlgorithm(ngen=int(ngen), mu=int(mu), lamb=int(mu), **kw)
+        wt = wts[0] if (len(wts) == 1 and o.get("wt") == "scalar") else numpy.array(wts)
+        soln, decn, misc = algo.optimize(objfn, k, numpy.arange(nsp) * 2 + 1, wt)
+        return {"soln": canon(numpy.asarray(soln)), "decn": canon(numpy.asarray(decn)),
+                "pop_decn": canon(numpy.asarray(misc["pop_decn"])), "pop_soln": canon(numpy.asarray(misc["pop_soln"]))}
     if op == "jitter":
         m = numpy.full((4, 4), 0.5)     # rank one: not positive definite
         cm = DenseMolecularCoancestryMatrix(m)
@@ -800,6 +836,113 @@ def check_subprocess(case, ctx):
                   lambda: "call #%d %s: %s vs %s" % (i, json.dumps(call), json.dumps(outs[1][i])[:300], json.dumps(outs[2][i])[:300]))
         ctx.check(outs[0][i] == outs[1][i], "subprocess.output_differs_from_in_process_run:%s" % call[0],
                   lambda: "call #%d %s: %s vs %s" % (i, json.dumps(call), json.dumps(outs[0][i])[:300], json.dumps(outs[1][i])[:300]))
+
+
+# ------------------------------------------------------------------------------------------------------
+# sub-check: subprocess_history (clause A, "whatever was executed before the re-seeding", between interpreters whose
+# histories contain the SAME components configured DIFFERENTLY)
+#
+# Inside one interpreter every execution shares whatever process-global state the first use of a component left behind
+# (class registries, caches, module-level tables), so two in-process executions agree with each other even when that state
+# is stale.  Only interpreters with different histories can disagree.  Each case therefore runs
+#     child A (fresh interpreter):                      prng.seed(s); P
+#     child B (fresh interpreter): prefix;              prng.seed(s); P
+#     this worker process (arbitrary long history):     prng.seed(s); P
+# where the prefix contains, for every set-GA optimisation of P, an optimisation by the same class with another weight
+# vector of the same length (other signs / magnitudes), other sizes and another objective, plus further stochastic calls.
+# ------------------------------------------------------------------------------------------------------
+def _children_run(payloads):
+    """run the child interpreters of one case concurrently (each costs an import of pybrops)"""
+    from concurrent.futures import ThreadPoolExecutor
+    with ThreadPoolExecutor(max_workers=len(payloads)) as ex:
+        return list(ex.map(_child_run, payloads))
+
+
+def _weights_of(call):
+    return [float(x) for x in split_opts(call)[0][6]]
+
+
+def check_subprocess_history(case, ctx):
+    P, pre, s = case["program"], case["prefix"], case["seed"]
+    label_program(ctx, P)
+    ga_p = [c for c in P if c[0] == "setga"]
+    ga_h = [c for c in pre if c[0] == "setga"]
+    same_len_other = any(len(_weights_of(a)) == len(_weights_of(b)) and _weights_of(a) != _weights_of(b) for a in ga_p for b in ga_h)
+    ctx.label("history:same_component_other_weights_same_length", same_len_other)
+    ctx.label("history:same_component_other_number_of_objectives",
+              any(len(_weights_of(a)) != len(_weights_of(b)) for a in ga_p for b in ga_h))
+    ctx.label("history:sign_of_a_weight_differs",
+              any(len(_weights_of(a)) == len(_weights_of(b)) and any((x > 0) != (y > 0) for x, y in zip(_weights_of(a), _weights_of(b)))
+                  for a in ga_p for b in ga_h))
+    ctx.label("history:has_other_stochastic_calls", any(c[0] != "setga" for c in pre))
+    ctx.label("setga:nobj=1", any(len(_weights_of(c)) == 1 for c in ga_p))
+    ctx.label("setga:nobj>=2", any(len(_weights_of(c)) >= 2 for c in ga_p))
+    ctx.label("setga:minimising_weight", any(x < 0 for c in ga_p for x in _weights_of(c)))
+    ctx.label("setga:scalar_weight_form", any(split_opts(c)[1].get("wt") == "scalar" for c in ga_p))
+    ctx.label("program_has_other_components", any(c[0] != "setga" for c in P))
+    ctx.nontrivial(bool(ga_p) and same_len_other)
+    known_a = [ctx.known("F-C08-a", uses_pymoo(c)) for c in P]
+    resync = lambda i, c: known_a[i]
+
+    fresh, after = _children_run([{"program": P, "prefix": [], "seed": s, "hist": case["hist1"], "known": known_a},
+                                  {"program": P, "prefix": pre, "seed": s, "hist": case["hist2"], "known": known_a}])
+    py_random.seed(case["hist2"] + 1)
+    numpy.random.seed(case["hist1"] + 1)
+    prng.seed(s)
+    here = run_program(P, resync, s)
+    for i, call in enumerate(P):
+        if known_a[i]:
+            continue
+        ctx.check(fresh[i] == after[i], "subprocess_history.output_depends_on_what_ran_before_the_reseeding:%s" % call[0],
+                  lambda: "call #%d %s after prng.seed(%d): fresh interpreter %s vs interpreter that first ran %s: %s"
+                          % (i, json.dumps(call), s, json.dumps(fresh[i])[:300], json.dumps(pre)[:600], json.dumps(after[i])[:300]))
+        ctx.check(fresh[i] == here[i], "subprocess_history.output_differs_from_long_lived_process:%s" % call[0],
+                  lambda: "call #%d %s after prng.seed(%d): fresh interpreter %s vs this (long-lived) process %s"
+                          % (i, json.dumps(call), s, json.dumps(fresh[i])[:300], json.dumps(here[i])[:300]))
+
+
+_wmag = st.sampled_from([1.0, 1.0, 0.5, 2.0, 0.25, 3.0])
+
+
+@st.composite
+def setga_call(draw, spec, wts=None):
+    """[setga, rng, ngen, mu, raw k, size of the search space, weight vector, objective seed]; ngen >= 2 so that at least one
+    round of (weight-dependent) tournament selection happens"""
+    if wts is None:
+        n = draw(st.sampled_from([1, 1, 1, 2, 3]))
+        wts = [draw(_wmag) * draw(st.sampled_from([1.0, -1.0])) for _ in range(n)]
+    call = ["setga", draw(spec), draw(st.integers(2, 5)), draw(st.integers(4, 10)), draw(st.integers(0, 50)),
+            draw(st.integers(6, 30)), wts, draw(_small)]
+    if len(wts) == 1 and draw(st.booleans()):
+        call.append({"wt": "scalar"})
+    return call
+
+
+@st.composite
+def other_weights(draw, wts):
+    """another weight vector of the same length: the sign of at least one weight differs (or, one time in four, only magnitudes)"""
+    sign = lambda w: 1.0 if w > 0 else -1.0
+    if len(wts) >= 2 and draw(st.sampled_from([False, False, False, True])):
+        out = [sign(w) * draw(_wmag) for w in wts]
+        if out != wts:
+            return out
+    j = draw(st.integers(0, len(wts) - 1))
+    return [(-sign(w) if i == j else draw(st.sampled_from([1.0, -1.0]))) * draw(_wmag) for i, w in enumerate(wts)]
+
+
+@st.composite
+def subprocess_history_case(draw):
+    other = call_strategy("some", with_pymoo=False)
+    nga = draw(st.sampled_from([1, 1, 2]))
+    gas = [draw(setga_call(rngspec("some"))) for _ in range(nga)]
+    rest = draw(st.lists(other, min_size=0, max_size=3))
+    program = draw(st.permutations(gas + rest))
+    # history: the same component configured differently (same number of objectives, other weights) + unrelated work
+    sib = [draw(setga_call(rngspec("never"), wts=draw(other_weights(_weights_of(g))))) for g in gas]
+    extra = draw(st.lists(st.one_of(call_strategy("never", with_pymoo=False), setga_call(rngspec("never"))), min_size=0, max_size=2))
+    prefix = draw(st.permutations(sib + extra))
+    return {"program": [list(c) for c in program], "prefix": [list(c) for c in prefix], "seed": draw(_seed),
+            "hist1": draw(_small), "hist2": draw(_small)}
 
 
 # ------------------------------------------------------------------------------------------------------
@@ -1207,4 +1350,12 @@ SUBCHECKS = [
     SubCheck("subprocess", check_subprocess, subprocess_case(), quick=3, thorough=12, shards_quick=2, shards_thorough=16,
              rule="the same program executed in two fresh interpreters (different prior histories) and in process after "
                   "prng.seed(s); non-trivial = >= 2 component kinds"),
+    SubCheck("subprocess_history", check_subprocess_history, subprocess_history_case(), quick=3, thorough=10, shards_quick=4,
+             shards_thorough=16, shrink_s=40,
+             rule="programs of 1-2 UnconstrainedSetGeneticAlgorithm.optimize calls (deap; generated weight vectors of 1-3 objectives "
+                  "with either sign, set sizes 2-7 out of 6-30, 2-5 generations) mixed with 0-3 other stochastic calls, executed after "
+                  "prng.seed(s) in a fresh interpreter, in an interpreter whose history holds the same optimiser class run with ANOTHER "
+                  "weight vector of the same length (plus other stochastic calls), and in this long-lived worker process; non-trivial = "
+                  "the history contains such a differently-weighted run",
+             required_labels=("has:setga", "history:same_component_other_weights_same_length")),
 ]
